@@ -62,7 +62,7 @@ func genReplica(c *Ctx) error {
 		check("join")
 		steps := r.Range(4, 12)
 		for i := 0; i < steps; i++ {
-			switch k := r.Intn(12); {
+			switch k := r.Intn(13); {
 			case k < 3: // legitimate incremental
 				if out := do("sapply " + v.randomCommit(6)); out == "ok" {
 					applied++
@@ -122,6 +122,14 @@ func genReplica(c *Ctx) error {
 					do(pick(r, []string{"sapply ", "txapply "}) + strings.Join(spec, " "))
 				}
 				sig.WriteString(",stale")
+			case k == 11: // the next file (or a snapshot), exactly extending the position, with a damaged body
+				spec := v.peekCommit()
+				if r.Chance(1, 3) {
+					spec = v.snapshot()
+				}
+				do(fmt.Sprintf("%s %d %s", pick(r, []string{"sapplyx", "txapplyx"}), r.Intn(1000), spec))
+				c.Count("corrupt-body")
+				sig.WriteString(",badbody")
 			case k == 10: // a later rejoin by snapshot (e.g. after the primary trimmed its log)
 				v.randomCommit(5)
 				v.randomCommit(5)
